@@ -150,6 +150,8 @@ def h_inv(params):
                         require(db.index.valid, lambda: f"step {step}: non-decreasing insert invalidated the index")
             elif k == "insm":
                 apply_op(h, ("insm", [P() for _ in range(op[1])]))
+            elif k == "insm_fail":
+                apply_op(h, ("insm_fail", [P() for _ in range(op[1])]))
             elif k == "read":
                 h.check_reads(h.q(op[1]), None, what=f"step {step} read")
                 if ai:
